@@ -1,4 +1,5 @@
 \* repaired model, a failing batch write (hole in the log)
+\* measured: 262 400 / 802 166, depth 38 (distinct / generated states)
 CONSTANTS NTx = 3 Kind <- KindS Sender <- SenderS Nonce <- NonceS NAccs = 1 Accs <- MCAccs StartEmpty = FALSE
   Max = 3 NPushers = 1 NConsumers = 0 Batch = 2
   MaxPush = 4 MaxBlocks = 1 MaxFail = 1 MaxCrash = 0 MaxClose = 1 MaxPops = 1 MaxExecErr = 0 MaxFatal = 0
